@@ -276,6 +276,16 @@ def _opt_and_then(m, a, c):
     return NONE
 
 
+@reg("std::option::Option::<T>::or_else")
+def _opt_or_else(m, a, c):
+    v = deref(a[0])
+    if isinstance(v, Term):
+        return Term("opt_or_else", v, a[1])
+    if v.variant == "Some":
+        return v
+    return m.call_value(a[1], [])
+
+
 @reg("std::option::Option::<T>::zip")
 def _opt_zip(m, a, c):
     x, y = deref(a[0]), deref(a[1])
